@@ -272,7 +272,7 @@ func c41CoqTree(b *c41Board) string {
 // ---------------------------------------------------------------- edits addressed to boards
 
 var c41Kinds = []string{"create-obj", "create-obj", "create-edge", "set-obj", "set-obj", "set-edge", "delobj", "delobj", "deledge",
-	"rename", "move", "delobjattr", "reconnect"}
+	"rename", "move", "delobjattr", "deledgeattr", "reconnect", "reconnect"}
 
 func c41PickOp(r *Rng, boardG *d2graph.Graph) *c37Op {
 	pg := c37Project(boardG)
